@@ -982,7 +982,14 @@ fn apply_binary_operation(
                             }
                         },
                         BinaryOp::Mod => {
-                            Ok(Value::Int(a % b))
+                            // `wrapping_rem` gives the exact result (`0`) for
+                            // `i64::MIN % -1`, which `checked_rem` reports as
+                            // an overflow.
+                            if *b == 0 {
+                                Err(new_int_overflow(a, b))
+                            } else {
+                                Ok(Value::Int(a.wrapping_rem(*b)))
+                            }
                         },
                         _ => {
                             panic!("unexpected operation");
